@@ -77,7 +77,7 @@ func echoRoundTrip(c net.Conn, msg string) bool {
 
 // c17Smoke runs the hand-over between two real processes built from cmd/samaritan.
 func c17Smoke(r *ev.Run) {
-	dir := filepath.Join(ev.Root, "run", "C17", "smoke")
+	dir := filepath.Join(ev.RunDir("C17"), "smoke")
 	os.RemoveAll(dir)
 	os.MkdirAll(dir, 0o755)
 	bin := filepath.Join(dir, "samaritan")
@@ -111,7 +111,7 @@ func c17Smoke(r *ev.Run) {
 	cfgFile := filepath.Join(dir, "sam.yaml") // JSON is YAML
 	os.WriteFile(cfgFile, js, 0o644)
 	start := func(tag string, env ...string) (*exec.Cmd, string) {
-		logPath := filepath.Join(ev.Root, "run", "C17", "smoke-"+tag+".log")
+		logPath := filepath.Join(ev.RunDir("C17"), "smoke-"+tag+".log")
 		f, _ := os.Create(logPath)
 		cmd := exec.Command(bin, "-config", cfgFile, "-data", dir, "-pidfile", filepath.Join(dir, tag+".pid"))
 		cmd.Stdout, cmd.Stderr = f, f
@@ -228,7 +228,7 @@ func c17Smoke(r *ev.Run) {
 // once, in several orders, while a client holds a fresh (not yet idle) connection to the admin port. Every request must be
 // acknowledged with its reply and the old process must stay alive until it is asked to terminate.
 func c17RealOldProcess(r *ev.Run) {
-	dir := filepath.Join(ev.Root, "run", "C17", "real")
+	dir := filepath.Join(ev.RunDir("C17"), "real")
 	os.RemoveAll(dir)
 	os.MkdirAll(dir, 0o755)
 	defer os.RemoveAll(dir)
@@ -260,7 +260,7 @@ func c17RealOldProcess(r *ev.Run) {
 		js, _ := b.MarshalJSON()
 		cfgFile := filepath.Join(dir, fmt.Sprintf("sam%d.yaml", oi))
 		os.WriteFile(cfgFile, js, 0o644)
-		logPath := filepath.Join(ev.Root, "run", "C17", fmt.Sprintf("real-old-%d.log", oi))
+		logPath := filepath.Join(ev.RunDir("C17"), fmt.Sprintf("real-old-%d.log", oi))
 		f, _ := os.Create(logPath)
 		cmd := exec.Command(bin, "-config", cfgFile, "-data", dir, "-pidfile", filepath.Join(dir, fmt.Sprintf("old%d.pid", oi)))
 		cmd.Stdout, cmd.Stderr = f, f
